@@ -9,7 +9,7 @@ Feed(oo, e) == IF e.k = "none" THEN oo ELSE Obs!RStep(oo, e)
 
 MCInit == Init /\ o = Obs!RStep(Obs!RInit0, CfgEv)
 MCNext == Next /\ o' = Feed(o, ev')
-MCSpec == MCInit /\ [][MCNext]_<<vars, tfire, o>>
+MCSpec == MCInit /\ [][MCNext]_<<vars, o>>
 
 Known == {"C17.F2.InOrder"}
 ObsQuiet == \A i \in 1..Len(o.bad) : o.bad[i] \in Known
